@@ -123,10 +123,9 @@ Lemma assign_specS g e d sel s s' w :
   comp (NAssign (NName g) e) sel (tfl d) s = COk (w, s') ->
   SpecS (NAssign (NName g) e) d sel s s' w.
 Proof.
-  intros Hok Hsel Hwf H. unfold assign_ok in Hok. apply andb_prop in Hok. destruct Hok as [Hp Hi].
+  intros Hok Hsel Hwf H. unfold assign_ok in Hok. pose proof Hok as Hp.
   rewrite comp_assign_unfold in H. destruct (is_inc g e) eqn:Hinc.
   - (* INC *)
-    cbn [negb orb] in Hi. apply (node_eqb_pure e Hp (NBin "+" (NName g) (NInt 1)) eq_refl) in Hi. subst e.
     apply cbind_ok in H. destruct H as [w0 [s2 [Href H]]].
     cbn [comp_ref] in Href. apply cbind_ok in Href. destruct Href as [ix [s2' [Hds Href]]].
     apply add_ds_ok in Hds. destruct Hds as [-> ->]. apply enc_ok in Href. destruct Href as [-> Ew0].
@@ -149,7 +148,7 @@ Proof.
     + right. right. right. left. reflexivity.
     + intros _. split; discriminate.
     + intros n rr v mid m r G' res Hc Hdat Hm Hsp Hip HM.
-      apply ssem_assign in HM. cbn [sem_simple] in HM. rewrite den_inc_left in HM.
+      apply ssem_assign in HM. cbn [sem_simple] in HM. rewrite (den_inc g e (v_globals v) Hinc) in HM.
       apply code_at_cons in Hc. destruct Hc as [Hi_inc _].
       assert (Hname : znth (v_ds v) (nds s) = Some (VStr g)).
       { apply Hdat. cbn [emitted rds s2 with_data]. rewrite (proj2 Hwf). apply znth_rev_cons. }
